@@ -509,6 +509,11 @@ pub fn compute_id_secret(share1: (Fr, Fr), share2: (Fr, Fr)) -> Result<Fr, Strin
     let (x1, y1) = share1;
     let (x2, y2) = share2;
 
+    // Two shares with the same x coordinate do not determine a line (and would divide by zero)
+    if x1 == x2 {
+        return Err("cannot recover the secret from two shares with the same x".to_string());
+    }
+
     // If the two input shares were computed for the same external_nullifier and identity secret, we can recover the latter
     // y1 = a_0 + x1 * a_1
     // y2 = a_0 + x2 * a_1
